@@ -1,16 +1,16 @@
 #!/bin/bash
-# seedall.sh [tier]: apply every archived seeded change to /repo in turn, run the check of the property it
+# seedall.sh [tier] (env SEED_GLOB="seeded/C*-9/ seeded/C*-10/" OUT=file to run a subset): apply every archived seeded change to /repo in turn, run the check of the property it
 # breaks (plus the extra checks listed in its meta as catching it), revert, and write seeded/RESULTS.md.
 TIER=${1:-quick}
 cd /verif
 git -C /repo status --short | grep -q . && { echo "/repo not clean"; exit 3; }
 trap "git -C /repo checkout -- . 2>/dev/null" EXIT
-OUT=seeded/RESULTS.md
+OUT=${OUT:-seeded/RESULTS.md}
 echo "# Seeded changes vs checks (tier: $TIER, repo $(git -C /repo log --format=%h -1), verif $(git log --format=%h -1))" > $OUT
 echo >> $OUT
 echo "| seeded change | breaks | check | exit | signatures reported |" >> $OUT
 echo "|---|---|---|---|---|" >> $OUT
-for d in seeded/C*-*/; do
+for d in ${SEED_GLOB:-seeded/C*-*/}; do
   id=$(basename $d); prop=${id%-*}
   checks=$(python3 -c "import json;m=json.load(open('$d/meta.json'));c=m['checks_run_with_change_applied_to_repo']['caught_by'];print(' '.join(dict.fromkeys(['$prop']+c)))")
   git -C /repo apply /verif/${d}patch.diff || { echo "| $id | $prop | - | PATCH FAILED | |" >> $OUT; continue; }
